@@ -235,6 +235,9 @@ func readField(r io.Reader) (v interface{}, err error) {
 		if err = binary.Read(r, binary.BigEndian, &lenVal); err != nil {
 			return nil, err
 		}
+		if lenVal < 0 {
+			return nil, ErrSyntax
+		}
 
 		value := make([]byte, lenVal)
 		if _, err = io.ReadFull(r, value); err != nil {
